@@ -440,13 +440,11 @@ func c20BitsExpSpecial(c *hx.Ctx, r *hx.RNG) {
 		case 3:
 			x.Mul(x, new(decimal.Decimal))
 		case 4:
-			x.SetMantExp(x, math.MinInt32)
-			if !x.IsZero() { // the value was large: push again
+			for i := 0; i < 4 && !x.IsZero(); i++ { // a large value needs more than one push
 				x.SetMantExp(x, math.MinInt32)
 			}
 		case 5:
-			x.SetMantExp(x, math.MaxInt32)
-			if !x.IsInf() { // the value was tiny: push again
+			for i := 0; i < 4 && !x.IsInf(); i++ { // a tiny value needs more than one push
 				x.SetMantExp(x, math.MaxInt32)
 			}
 			wantInf = true
